@@ -9,8 +9,8 @@ CONSTANTS
   Incs = {1, 3}
   InitWins = {1, 5}
   MaxFrames = {1, 3}
-  MaxSend = 3
-  MaxCtl = 3
+  MaxSend = 2
+  MaxCtl = 2
   OutCap = 4
   Eager = TRUE
   MaxCtlQ = 1
@@ -23,8 +23,8 @@ CONSTANTS
   BugZeroCostHeld = FALSE
   SplitOnlyAtEnqueue = FALSE
   DropOnClose = FALSE
-  WriteErrorEndsReader = FALSE
+  WriteErrorEndsReader = TRUE
   ForwardInitWin = FALSE
-  WithSettings = FALSE
-INVARIANTS ReaderAlive NotStarved WithinGrant WithinMaxFrame CreditReturned NoEligibleQueued LedgerAgrees PrefixFidelity Conserved HpackInOrder
+  WithSettings = TRUE
+INVARIANTS ReaderAlive
 CHECK_DEADLOCK FALSE
